@@ -377,6 +377,11 @@ func (g *G) stmt(c ctx) []Stmt {
 	}
 	add(1+4*we+ws, func() []Stmt {
 		g.feat("throw")
+		if g.R.Intn(12) == 0 {
+			// an empty message is still an error
+			g.feat("throw-empty-message")
+			return []Stmt{&Throw{X: &StrLit{V: ""}}}
+		}
 		return []Stmt{&Throw{X: &StrLit{V: "T" + strconv.FormatInt(g.probeID(), 10)}}}
 	})
 	add(1+3*we+ws, func() []Stmt { return []Stmt{&ExprStmt{X: g.failExpr()}} })
